@@ -1121,9 +1121,25 @@ package process
 //@   loop[C04] 1 invariant forall j int :: 0 <= j && j <= idx ==> !fits(functions[j], name, arity)
 //@   ensures[C04] C04.lookupNone: result == nil ==> (forall j int :: 0 <= j && j < len(functions) ==> !fits(functions[j], name, arity))
 //@   ensures[C04] C04.lookupFirst: result != nil ==> (exists k int :: 0 <= k && k < len(functions) && fits(functions[k], name, arity) && (forall j int :: 0 <= j && j < k ==> !fits(functions[j], name, arity)) && result.Body == functions[k].Body && result.Parameters == functions[k].Parameters && result.ExplicitProvider == functions[k].ExplicitProvider && result.UsesExplicitProvider == functions[k].UsesExplicitProvider)
-// the copy is a new term: whatever is done to it leaves the original alone
+// the copy is a new term: whatever is done to it leaves the original alone. Stated one level deep - the node, its
+// continuation/body/branch nodes and its argument list were all allocated by this call; every deeper node is the root
+// of a recursive call's result, so the same holds for it (induction over the tree, not mechanised).
+//@ macro newKid(c Form, a int) bool = c == nil || born(c) >= a
+//@ macro copiedHere(f Form, a int) bool = born(f) >= a &&
+//@    (is(f, ReceiveForm) ==> newKid(ReceiveForm(f).continuation_e, a)) &&
+//@    (is(f, BranchForm) ==> newKid(BranchForm(f).continuation_e, a)) &&
+//@    (is(f, CaseForm) ==> (len(CaseForm(f).branches) == 0 || born(backing(CaseForm(f).branches)) >= a) && (forall i int :: 0 <= i && i < len(CaseForm(f).branches) ==> CaseForm(f).branches[i] != nil && born(CaseForm(f).branches[i]) >= a)) &&
+//@    (is(f, NewForm) ==> newKid(NewForm(f).body, a) && newKid(NewForm(f).continuation_e, a)) &&
+//@    (is(f, SplitForm) ==> newKid(SplitForm(f).continuation_e, a)) &&
+//@    (is(f, CallForm) ==> len(CallForm(f).parameters) == 0 || born(backing(CallForm(f).parameters)) >= a) &&
+//@    (is(f, WaitForm) ==> newKid(WaitForm(f).continuation_e, a)) &&
+//@    (is(f, ShiftForm) ==> newKid(ShiftForm(f).continuation_e, a)) &&
+//@    (is(f, DropForm) ==> newKid(DropForm(f).continuation_e, a)) &&
+//@    (is(f, PrintForm) ==> newKid(PrintForm(f).continuation_e, a))
 //@ contract CopyForm
-//@   ensures[C04] C04.copyFresh: result == nil || born(result) >= old(allocCounter())
+//@   ensures[C04] C04.copyFresh: result != nil && copiedHere(result, old(allocCounter()))
+//@   ensures[C04] C04.copySameKind: (is(orig, CaseForm) ==> is(result, CaseForm) && len(CaseForm(result).branches) == len(CaseForm(orig).branches)) && (is(orig, BranchForm) ==> is(result, BranchForm))
+//@   loop[C04] 1 invariant 0 <= i && i <= len(p.branches) && len(branches) == len(p.branches) && born(backing(branches)) >= old(allocCounter()) && (forall j int :: 0 <= j && j < i ==> branches[j] != nil && born(branches[j]) >= old(allocCounter()))
 
 // f(ps) (CALL): body := a copy of the definition's body with the arguments for the parameters; the definition is left alone.
 //@ contract (*CallForm).Transition
@@ -1139,7 +1155,7 @@ package process
 //@   loop[C04] 2 invariant 1 <= i
 //@   loop[C04] 4 invariant 1 <= i
 //@   callsite[C04] C04.callStep (*process.Process).transitionLoop#1: arg0 == process && process.Body == functionCallBody && process.Providers == old(process.Providers)
-//@   callsite[C04] C04.callFresh (*process.Process).transitionLoop#1: functionCallBody == nil || born(functionCallBody) >= old(allocCounter())
+//@   callsite[C04] C04.callFresh (*process.Process).transitionLoop#1: copiedHere(functionCallBody, old(allocCounter()))
 
 // DUP: a process with providers p1..pn becomes n processes, the i-th a copy of the body providing pi in which the
 // k-th free name is the fresh channel c[k][i]; per free name k a forwarder provides c[k][1..n] from it; the original ends.
@@ -1283,7 +1299,7 @@ package process
 //@   loop[C04] 2 invariant 1 <= i
 //@   loop[C04] 4 invariant 1 <= i
 //@   callsite[C04] C04.npcallStep (*process.Process).transitionLoopNP#1: arg0 == process && process.Body == functionCallBody && process.Providers == old(process.Providers)
-//@   callsite[C04] C04.npcallFresh (*process.Process).transitionLoopNP#1: functionCallBody == nil || born(functionCallBody) >= old(allocCounter())
+//@   callsite[C04] C04.npcallFresh (*process.Process).transitionLoopNP#1: copiedHere(functionCallBody, old(allocCounter()))
 
 // DUP: a process with providers p1..pn becomes n processes, the i-th a copy of the body providing pi in which the
 // k-th free name is the fresh channel c[k][i]; per free name k a forwarder provides c[k][1..n] from it; the original ends.
